@@ -29,3 +29,5 @@ H("G-SYNCSTATE", "state_persist_roundtrip_h1", "C21 C19", "one shared head of AN
   "as above; the head is restored bit for bit")
 H("G-SYNCSTATE", "state_decode_total_len3", "C21 C15 C17", "EVERY input of 2 or 3 bytes; unwind 12",
   "total; accepts exactly type byte 0x43 + count 0; a count without its hashes is NotEnoughInput", unwind_is_budget=True)
+H("G-SYNCSTATE", "state_capability_predicates", "C22 C20 C21", "every capability list of length 0..=2 or absent; peer heads absent / empty / one; unwind 4",
+  "peer_supports_sync_reset <=> SyncReset listed; supports_v2_messages <=> MessageV2 listed; send_doc <=> peer heads empty and V2")
